@@ -66,7 +66,13 @@ def handle (j : Json) : Except String Json := do
   let m ← ofMRS (← j.getObjVal? "m")
   let cfgs ← getArr j "configs"
   let answers ← cfgs.mapM (handleOne m)
-  pure (Json.arr answers.toArray)
+  -- "convert – edit in place – convert again": the same configurations on the edited content
+  match j.getObjVal? "m2" with
+  | .ok j2 =>
+    let m2 ← ofMRS j2
+    let answers2 ← cfgs.mapM (handleOne m2)
+    pure (Json.arr (answers ++ answers2).toArray)
+  | .error _ => pure (Json.arr answers.toArray)
 
 end Verif.C05.Driver
 
